@@ -187,7 +187,7 @@ def _dmrg_(psi, H : MpsMpoOBC | Sequence[tuple[MpsMpoOBC, float]], project, meth
             converged.append(abs(dE) < energy_tol)
 
         if Schmidt_tol is not None:
-            max_dS = max((Schmidt[k] - Schmidt_old[k]).norm().item() for k in Schmidt.keys())
+            max_dS = max(((Schmidt[k] - Schmidt_old[k]).norm().item() for k in Schmidt.keys()), default=0.)
             Schmidt_old = Schmidt.copy()
             converged.append(max_dS < Schmidt_tol)
 
